@@ -217,6 +217,31 @@ PROPS = {
             "The model answers from the TZif data as proved in C15_*; the provider returned a different offset, a different set "
             "of instants, accepted/rejected an identifier differently, or its answer depended on earlier queries.",
     },
+    "C19": {
+        "lean_modules": ["TemporalModel.Props.C19"],
+        "suites": ["c19"],
+        "translator": "tools/translate_wrappers.py",
+        "level_text": "Proof over a table REGENERATED FROM /repo ON EVERY RUN (tools/translate_wrappers.py reads "
+                      "src/builtins/compiled/*.rs and temporal_capi/src/*.rs: one row per wrapper = name, parameters, the inner "
+                      "method called, the parameter each call argument is built from; plus FFI-vs-core enum variant lists and the "
+                      "field maps of the FFI value structs): C19_wrappers_thin (each of the 232 wrappers calls the method of its own "
+                      "name with its own parameters in order, plus the provider / minus the output sink, or is one of ten exactly "
+                      "matched audited rows), C19_compiled_all_thin (no convenience wrapper is exempt), "
+                      "C19_compiled_callees_distinct (no two accessors share a twin), C19_enums_same_variants, "
+                      "C19_fields_same_name, C19_tables_nonempty - all by kernel evaluation of the generated table. Tie (second): "
+                      "every convenience method is called next to its *_with_provider twin on a fresh provider (12 zones, instants "
+                      "with distinct sub-second fields near DST changes; all 30 accessors, add/subtract/until/since/with_plain_time/"
+                      "to_ixdtf_string/from_str, Duration round/total/compare relative to a zoned date-time, Instant and "
+                      "PlainDateTime conversions, RelativeTo parsing) and a slice of the FFI layer is called from Rust next to the "
+                      "core (Instant words, PlainDate in every calendar, PlainTime, Duration).",
+        "level_note": "Trusted: Lean kernel (+propext); the translator's reading of a method body as 'the first call on self / "
+                      "self.0 / a type path and the identifiers in its arguments' (a wrapper it cannot read fails the theorem); "
+                      "`enum_convert` converting by variant name (diplomat); Now::* read the system clock and are covered by the "
+                      "table only. The differential run compares Debug renderings.",
+        "why_difference_is_violation":
+            "A thin wrapper returns what the wrapped method returns; this wrapper returned something else for the same receiver "
+            "and arguments (or the regenerated wrapper table no longer satisfies the thinness theorems).",
+    },
     "C17": {
         "lean_modules": ["TemporalModel.Props.C17"],
         "suites": ["c17"],
